@@ -416,6 +416,27 @@ class Analyzer:
         if b:
             return
         l = strip_casts(lhs)
+        if l.get('k') == 'mem' and l['f'] == 'position' and op == '=' and record:
+            # BND5: the failure position that gets published must lie inside the buffer
+            r = strip_casts(a['r'])
+            ok = False
+            why = 'not one of: 0, B.offset with a readable byte proven, B.length - c with length >= c proven'
+            c = const_val(a['r'])
+            bo = self.buf_field(r, 'offset')
+            if c is not None:
+                ok = c == 0
+                why = 'constant %d' % c
+            elif bo:
+                av = st.buf.get(bo, TOP)
+                ok = av[0] >= 1
+                why = '%s.offset with avail >= %s' % (bo, av[0] if av[0] > NEG else 'nothing')
+            elif r.get('k') == 'bin' and r['op'] == '-' and self.buf_field(r['l'], 'length') and const_val(r['r']) is not None:
+                bl = self.buf_field(r['l'], 'length')
+                cc = const_val(r['r'])
+                ok = cc >= 1 and st.len.get(bl, 0) >= cc
+                why = '%s.length - %d with length >= %d' % (bl, cc, st.len.get(bl, 0))
+            self.site('BND5', a, 'published failure position %s lies inside the buffer' % expr_str(a)[:50], ok, why,
+                      'position:' + expr_str(r)[:40])
         if l.get('k') == 'ref':
             t = self.u.ty(l.get('ty0', l['ty']))
             if t['c'] == 'ptr':
